@@ -367,7 +367,7 @@ Section Repl.
 
   (** * Boolean guards of the guarded theorems (evaluated on every harness case) *)
   Definition tf_okb (tf : Z) : bool :=
-    (0 <? tf) && (tf <? utils_Day) && (utils_Day mod tf =? 0) && (tf mod NS =? 0).
+    (0 <? tf) && (tf <=? utils_Day) && (utils_Day mod tf =? 0) && (tf mod NS =? 0).
 
   (** (year, index) name a slot: the interval start maps back to them *)
   Definition idx_okb (w : ws) : bool :=
